@@ -8,14 +8,23 @@ Import ListNotations.
 Open Scope Z_scope.
 
 (* ---- Part A: the scan ---- *)
-Definition notcolon (c : Z) : bool := negb (c =? 58).
+Definition namec_b (c : Z) : bool :=
+  (0 <=? c) && (c <=? 127) && negb (is_space c) && negb (c =? 58) && negb (c =? 59) && negb (c =? 61).
 
-Lemma span_colon x r : has_char 58 x = false -> span (fun c => negb (c =? 58)) (x ++ 58 :: r) = (x, 58 :: r).
+(* the name of a TZID parameter ends at the first ':' or ';' (5fe9b57) *)
+Definition nodelim (s : str) : bool := negb (has_char 58 s) && negb (has_char 59 s).
+
+Lemma span_colon x d r : nodelim x = true -> d = 58 \/ d = 59 ->
+  span (fun c => negb ((c =? 58) || (c =? 59))) (x ++ d :: r) = (x, d :: r).
 Proof.
-  induction x as [|c x IH]; intro H.
-  - reflexivity.
-  - unfold has_char in H. cbn [existsb] in H. apply orb_false_iff in H as [H1 H2].
-    cbn [app span]. rewrite H1. cbn [negb]. rewrite (IH H2). reflexivity.
+  unfold nodelim. induction x as [|c x IH]; intros H Hd.
+  - cbn [app span]. replace ((d =? 58) || (d =? 59)) with true by lia. reflexivity.
+  - unfold has_char in H. cbn [existsb] in H.
+    assert (H1 : (c =? 58) = false) by (destruct (c =? 58); [cbn in H; discriminate|reflexivity]).
+    assert (H2 : (c =? 59) = false).
+    { destruct (c =? 59); [|reflexivity]. cbn in H. rewrite andb_false_r in H. discriminate. }
+    cbn [app span]. rewrite H1, H2. cbn [orb negb]. rewrite IH; [reflexivity| |exact Hd].
+    rewrite H1, H2 in H. exact H.
 Qed.
 
 (* no 'T' immediately followed by 'Z' *)
@@ -87,30 +96,41 @@ Proof.
 Qed.
 
 Lemma scan_hit x r name after : startswith_ci s_TZIDeq (x :: r) = true ->
-  span (fun c => negb (c =? 58)) (skipn 5 (x :: r)) = (name, after) -> name <> [] -> after <> [] ->
+  span (fun c => negb ((c =? 58) || (c =? 59))) (skipn 5 (x :: r)) = (name, after) -> name <> [] -> after <> [] ->
   tzid_scan O (x :: r) = name :: tzid_scan (4 + List.length name + 1) r.
 Proof.
   intros H1 H2 H3 H4. cbn [tzid_scan]. rewrite H1, H2.
   destruct name; [congruence|]. destruct after; [congruence|]. reflexivity.
 Qed.
 
-Theorem tzid_findall_one pre name rest : nolower pre -> noTZ (pre ++ [84]) = true -> name <> [] ->
-  has_char 58 name = false -> nolower rest -> noTZ rest = true ->
-  tzid_findall (pre ++ s_TZIDeq ++ name ++ 58 :: rest) = [name].
+Theorem tzid_findall_one_d pre name d rest : nolower pre -> noTZ (pre ++ [84]) = true -> name <> [] ->
+  nodelim name = true -> d = 58 \/ d = 59 -> nolower rest -> noTZ rest = true ->
+  tzid_findall (pre ++ s_TZIDeq ++ name ++ d :: rest) = [name].
 Proof.
-  intros Hlp Hpre Hne H58 Hlr Hrest. unfold tzid_findall.
-  change (s_TZIDeq ++ name ++ 58 :: rest) with (84 :: 90 :: (73 :: 68 :: 61 :: name ++ 58 :: rest)).
+  intros Hlp Hpre Hne H58 Hd Hlr Hrest. unfold tzid_findall.
+  change (s_TZIDeq ++ name ++ d :: rest) with (84 :: 90 :: (73 :: 68 :: 61 :: name ++ d :: rest)).
   rewrite scan_prefix by assumption.
-  assert (S : startswith_ci s_TZIDeq (84 :: 90 :: 73 :: 68 :: 61 :: name ++ 58 :: rest) = true).
+  assert (S : startswith_ci s_TZIDeq (84 :: 90 :: 73 :: 68 :: 61 :: name ++ d :: rest) = true).
   { change s_TZIDeq with [84; 90; 73; 68; 61]. cbn [startswith_ci]. reflexivity. }
-  rewrite (scan_hit 84 (90 :: 73 :: 68 :: 61 :: name ++ 58 :: rest) name (58 :: rest) S);
-    [|cbn [skipn]; apply span_colon, H58|exact Hne|discriminate].
-  assert (L : (4 + List.length name + 1)%nat = List.length (90 :: 73 :: 68 :: 61 :: name ++ [58])).
+  rewrite (scan_hit 84 (90 :: 73 :: 68 :: 61 :: name ++ d :: rest) name (d :: rest) S);
+    [|cbn [skipn]; apply span_colon; assumption|exact Hne|discriminate].
+  assert (L : (4 + List.length name + 1)%nat = List.length (90 :: 73 :: 68 :: 61 :: name ++ [d])).
   { cbn [List.length]. rewrite app_length. cbn [List.length]. lia. }
-  replace (90 :: 73 :: 68 :: 61 :: name ++ 58 :: rest) with ((90 :: 73 :: 68 :: 61 :: name ++ [58]) ++ rest)
+  replace (90 :: 73 :: 68 :: 61 :: name ++ d :: rest) with ((90 :: 73 :: 68 :: 61 :: name ++ [d]) ++ rest)
     by (cbn [app]; rewrite <- app_assoc; reflexivity).
   rewrite L.
   rewrite scan_skip. rewrite (scan_noTZ rest O Hlr Hrest). reflexivity.
+Qed.
+
+Theorem tzid_findall_one pre name rest : nolower pre -> noTZ (pre ++ [84]) = true -> name <> [] ->
+  nodelim name = true -> nolower rest -> noTZ rest = true ->
+  tzid_findall (pre ++ s_TZIDeq ++ name ++ 58 :: rest) = [name].
+Proof. intros. apply tzid_findall_one_d; auto. Qed.
+
+Lemma namec_nodelim name : (forall x, In x name -> namec_b x = true) -> nodelim name = true.
+Proof.
+  intro H. unfold nodelim. rewrite !has_char_false; [reflexivity| |];
+    apply Forall_forall; intros x Hx; specialize (H x Hx); unfold namec_b in H; lia.
 Qed.
 
 (* ---- Part B: a spelled date value and rule line never contain "TZ" ---- *)
@@ -263,8 +283,7 @@ Proof.
 Qed.
 
 (* ---- Part C: rrulestr on 'DTSTART;TZID=<name>:<value>' + rule line ---- *)
-Definition namec (c : Z) : bool :=
-  is_ascii c && negb (is_space c) && negb (c =? 58) && negb (c =? 59) && negb (c =? 61).
+Definition namec (c : Z) : bool := namec_b c.
 
 Lemma namec_upc c : namec c = true ->
   is_ascii (upc c) = true /\ is_space (upc c) = false /\ is_lower (upc c) = false /\
@@ -326,7 +345,7 @@ Proof.
     2: { apply Forall_app; split.
          - eapply Forall_impl; [|exact Hdv]. intros ch Hc'. apply valc_not_lower. unfold valc. rewrite Hc'. reflexivity.
          - constructor; [reflexivity|]. eapply Forall_impl; [|exact H2]. intros ch Hc'. apply linec_props, Hc'. }
-    apply has_char_false. apply Forall_forall. intros x Hx. specialize (Hnm x Hx). unfold namec, is_ascii, is_space in *. lia. }
+    apply namec_nodelim. exact Hnm. }
   assert (Hasc : forallb is_ascii T = true).
   { unfold T. rewrite !forallb_app. cbn [forallb]. rewrite !forallb_app. cbn [forallb].
     assert (A1 : forallb is_ascii name = true).
@@ -487,7 +506,7 @@ Proof.
     2: { apply Forall_app; split.
          - eapply Forall_impl; [|exact Hdv]. intros ch Hc'. apply valc_not_lower. unfold valc. rewrite Hc'. reflexivity.
          - constructor; [reflexivity|]. eapply Forall_impl; [|exact H2]. intros ch Hc'. apply linec_props, Hc'. }
-    apply has_char_false. apply Forall_forall. intros x Hx. specialize (Hnm x Hx). unfold namec, is_ascii, is_space in *. lia. }
+    apply namec_nodelim. exact Hnm. }
   rewrite Hnames. cbn [map].
   assert (Hup1 : upper L1 = s_DTSTART ++ 59 :: s_TZIDeq ++ upper name ++ 58 :: dv).
   { unfold L1. rewrite !upper_app. cbn [upper map]. fold (upper dv).
